@@ -37,32 +37,32 @@ var props = []propCfg{
 	},
 	{
 		ID: "C05", World: "rotation", Pkg: "worlds/rotation", Test: "TestRotation", Level: "exploration",
-		Variants: []variant{{Name: "plain", Quick: 2000, Thorough: 100000, Workers: 16, QuickS: 1500, ThoroughS: 4 * 3600}},
-		Rule: "TODO",
-		Assume: []string{"TODO"},
+		Variants: []variant{{Name: "plain", Quick: 20000, Thorough: 50000, Workers: 16, QuickS: 1500, ThoroughS: 4 * 3600}},
+		Rule:     "one run = one rapid bit stream: a primitive class (aead, daead, mac, signature, hybrid, jwtmac, jwtsig, streamingaead, prf), monitoring on/off, a palette of 1..4 catalogue entries (mixed key types and variants, plus stub custom key types), a start state (empty manager or a parsed keyset with DISABLED/DESTROYED keys) and up to 40 (thorough 120) steps of administrator (real keyset.Manager ops, key IDs scripted through the RNG seam to 0, 2^32-1, live, near-live, deleted and foreign IDs), producer, consumer, network (late, duplicated, reordered delivery; version skew) and foreign-administrator actions. Non-trivial = at least one delivery had an expected outcome other than 'accepted under the consumer's primary'; distinct = signature (class, monitoring, start, live-key bucket, set of outcome classes, set of producer/consumer version relations).",
+		Assume:   []string{"equal key material under different parameters never occurs in a run", "forging across distinct key materials is negligible", "handle entries (ID, status, primary) are taken as the keyset — manager correctness is C11", "error texts, order of trial decryption and Enable on DESTROYED are not asserted", "ML-KEM randomness is fixed by cryptotest.SetGlobalRandom; JWT and randomized outputs enter the digest only by length and decision"},
 	},
 	{
 		ID: "C09", World: "jwtclock", Pkg: "worlds/jwtclock", Test: "TestJWTClock", Level: "exploration",
 		Variants: []variant{{Name: "plain", Quick: 500, Thorough: 30000, Workers: 16, QuickS: 1500, ThoroughS: 4 * 3600}},
-		Rule: "TODO",
-		Assume: []string{"TODO"},
+		Rule:     "TODO",
+		Assume:   []string{"TODO"},
 	},
 	{
 		ID: "C14", World: "atrest", Pkg: "worlds/atrest", Test: "TestAtRest", Level: "exploration",
-		Variants: []variant{{Name: "plain", Quick: 5000, Thorough: 300000, Workers: 16, QuickS: 1500, ThoroughS: 4 * 3600}},
-		Rule: "TODO",
-		Assume: []string{"TODO"},
+		Variants: []variant{{Name: "plain", Quick: 20000, Thorough: 150000, Workers: 16, QuickS: 1500, ThoroughS: 4 * 3600}},
+		Rule:     "each rapid run draws (format binary/JSON, protection cleartext/encrypted under a real AES-GCM KEK with associated data/public-only, 1..5 catalogue keys of one or mixed classes, optionally a stub custom key and an unknown-type-URL key, ENABLED/DISABLED/DESTROYED mix), writes it once with the real writer to a simulated device, then runs 1..6 (thorough 1..12) storage experiments on that image — each one evaluation: none; 1..3 medium faults placed field-aware by walking the protobuf/JSON layout (bit flip, byte substitution, block duplicated/dropped/swapped, splice with a second keyset, zero/garbage tail, empty, random, flips in keyset_info vs ciphertext of the encrypted wrapper); cut at every level-1/level-2 field boundary; torn write through the device; 12 proto-level edits; wrong reader; 39 hand-built below-minimum-strength keys — read back through a short-reading / failing source. Non-trivial = a medium, struct, weak-key or reader-side fault fired or a special key is present; distinct = signature (format, key-type set, protection, fault kind@target class, outcome).",
+		Assume:   []string{"storage faults act on bytes the real writers produced, plus the listed proto edits, weak protos and random garbage; arbitrary in-memory Keyset mutation is not enumerated", "the harness classifier uses the same protobuf library as tink", "strength thresholds are exactly those in the property text, read through public accessors", "SLH-DSA primaries are excepted from self-consistency as the property says", "ML-DSA WITH_ID_REQUIREMENT keys and RSA-PSS salt-length-0 keys are excluded because their own images cannot be written/read back (a C12 matter)"},
 	},
 	{
 		ID: "C19", World: "memory", Pkg: "worlds/memory", Test: "TestMemory", Level: "exploration",
-		Variants: []variant{{Name: "plain", Quick: 1000, Thorough: 60000, Workers: 16, QuickS: 1500, ThoroughS: 4 * 3600}},
-		Rule: "TODO",
-		Assume: []string{"TODO"},
+		Variants: []variant{{Name: "plain", Quick: 10000, Thorough: 60000, Workers: 16, QuickS: 1500, ThoroughS: 4 * 3600}},
+		Rule:     "one run = one drawn entry (a catalogue key type x variant, a stub legacy key type x prefix, or a subtle constructor), one drawn history of up to 10 steps (accessor sweep found by reflection, public constructors fed from arena buffers, serialize/parse, handles through manager / MemReaderWriter / binary / JSON / encrypted readers, exports, factory primitives and their operations on arena-backed inputs) and one drawn fault plan (which earlier input or returned value is flipped, after which step, which byte, whole value or not, data or spare capacity). The history is executed in a pristine and a faulted world with identical RNG streams. Non-trivial = at least one flip fired; distinct = signature (class/key type/variant, set of step groups, set of flip kinds fired, outcome).",
+		Assume:   []string{"Go's collector does not move heap objects and every compared address range is kept referenced", "the simrng and cryptotest seams reproduce all randomness; a non-reproducible operation is detected, counted and compared semantically", "key.Equal plus accessor values distinguish key material", "stub key-manager primitives are themselves copy-clean", "KMS envelope AEAD and the hybrid/subtle curve helpers are not reached (listed in the byte-api set of the evidence)"},
 	},
 	{
 		ID: "C20", World: "entropy", Pkg: "worlds/entropy", Test: "TestEntropy", Level: "exploration",
-		Variants: []variant{{Name: "plain", Quick: 1000, Thorough: 60000, Workers: 16, QuickS: 1500, ThoroughS: 4 * 3600}},
-		Rule: "TODO",
-		Assume: []string{"TODO"},
+		Variants: []variant{{Name: "plain", Quick: 4000, Thorough: 20000, Workers: 16, QuickS: 1500, ThoroughS: 4 * 3600}},
+		Rule:     "each run draws 1..4 keys over all randomized catalogue key types and variants (AEAD, streaming AEAD, hybrid HPKE/ECIES, signatures, JWT signatures) plus an interleaved history of 1..24 (thorough 50) produce / new-primitive / key-generation / manager-add calls with the RNG behind the simrng seam; legal short reads of the RNG (max 2..7 bytes) are on in 70% of runs and key-ID collisions are scripted. Per call: provenance (the random field equals a contiguous range issued during this very call, windows disjoint and advancing), sensitivity (re-run with one consumed byte XOR 0xFF: the output must change), independent crypto/ecdh recomputation of ephemerals, pairwise no-repeat sets, and SetGlobalRandom-differential for ML-KEM. Non-trivial = an oracle ran and a fault fired or more than 3 calls were made; distinct = signature (first key class/type/variant, #keys, set of oracles exercised, fault kinds fired, call-count class).",
+		Assume:   []string{"simrng's stream is collision-free over a run", "Go 1.26.8 with GODEBUG cryptocustomrand=1 (harness go.mod says go 1.25.0): the reader tink passes to ecdsa/rsa/ecdh is honoured", "randomness drawn inside the standard library without a reader is reachable only through testing/cryptotest.SetGlobalRandom", "statistical quality of the OS RNG is out of scope: identity with the RNG's bytes is what is decided", "rejection sampling never discards more than (consumed - scheme length) bytes"},
 	},
 }
